@@ -240,3 +240,81 @@ pub fn compress(v: &Value) -> Value {
     }
     json!({"failed": failed})
 }
+
+/// K3: {entries: [[commit index 0..2, text]..], existing: ["none"|"flat"|"fanout" x3]} on a real repository
+pub fn notes_batch(v: &Value) -> Value {
+    let dir = std::env::temp_dir().join(format!("vreplay-c05n-{}", std::process::id()));
+    let _ = std::fs::remove_dir_all(&dir);
+    std::fs::create_dir_all(&dir).unwrap();
+    let git_in = |args: &[&str], input: Option<&[u8]>| -> String {
+        use std::io::Write;
+        let mut c = std::process::Command::new("git");
+        c.args(args)
+            .current_dir(&dir)
+            .env("GIT_AUTHOR_NAME", "v")
+            .env("GIT_AUTHOR_EMAIL", "v@v")
+            .env("GIT_COMMITTER_NAME", "v")
+            .env("GIT_COMMITTER_EMAIL", "v@v")
+            .stdin(std::process::Stdio::piped())
+            .stdout(std::process::Stdio::piped())
+            .stderr(std::process::Stdio::piped());
+        let mut ch = c.spawn().unwrap();
+        if let Some(i) = input {
+            ch.stdin.as_mut().unwrap().write_all(i).unwrap();
+        }
+        drop(ch.stdin.take());
+        let o = ch.wait_with_output().unwrap();
+        assert!(o.status.success(), "git {:?}: {}", args, String::from_utf8_lossy(&o.stderr));
+        String::from_utf8_lossy(&o.stdout).trim().to_string()
+    };
+    git_in(&["init", "-q", "."], None);
+    git_in(&["config", "user.name", "v"], None);
+    git_in(&["config", "user.email", "v@v"], None);
+    let mut shas = Vec::new();
+    for i in 0..3 {
+        std::fs::write(dir.join("f"), format!("{i}\n")).unwrap();
+        git_in(&["add", "-A"], None);
+        git_in(&["commit", "-q", "-m", "c"], None);
+        shas.push(git_in(&["rev-parse", "HEAD"], None));
+    }
+    // existing notes, laid out the way git may have laid them out
+    let mut stream = String::new();
+    let mut any = false;
+    let mut body = String::new();
+    for (i, sha) in shas.iter().enumerate() {
+        let text = format!("old-{i}");
+        let path = match v["existing"][i].as_str().unwrap_or("none") {
+            "flat" => sha.clone(),
+            "fanout" => format!("{}/{}", &sha[..2], &sha[2..]),
+            _ => continue,
+        };
+        any = true;
+        body.push_str(&format!("M 100644 inline {}\ndata {}\n{}\n", path, text.len(), text));
+    }
+    if any {
+        stream.push_str("commit refs/notes/ai\ncommitter v <v@v> 1700000000 +0000\ndata 0\n");
+        stream.push_str(&body);
+        stream.push('\n');
+        git_in(&["fast-import", "--quiet"], Some(stream.as_bytes()));
+    }
+    let repo = git_ai::git::find_repository_in_path(dir.to_str().unwrap()).expect("repo");
+    let entries: Vec<(String, String)> = v["entries"]
+        .as_array()
+        .unwrap()
+        .iter()
+        .map(|e| (shas[e[0].as_u64().unwrap() as usize].clone(), e[1].as_str().unwrap().to_string()))
+        .collect();
+    let r = git_ai::git::refs::notes_add_batch(&repo, &entries);
+    let listing = git_in(&["ls-tree", "-r", "--name-only", "refs/notes/ai"], None);
+    let mut per: Vec<Value> = Vec::new();
+    for sha in &shas {
+        let paths: Vec<String> = listing.lines().filter(|p| p.replace('/', "") == *sha).map(|p| p.to_string()).collect();
+        let texts: Vec<String> = paths
+            .iter()
+            .map(|p| git_in(&["cat-file", "-p", &format!("refs/notes/ai:{p}")], None))
+            .collect();
+        per.push(json!({"paths": paths, "texts": texts}));
+    }
+    let _ = std::fs::remove_dir_all(&dir);
+    json!({"ok": r.is_ok(), "error": r.err().map(|e| e.to_string()), "commits": per})
+}
